@@ -10,6 +10,8 @@ var abstractChars = map[string]string{
 	"a": "a", "b": "b", "E": "é", "e": "e", "acute": "́", "L": "ᄀ", "V": "ᅡ", "T": "ᆨ",
 	"H": "가", "Z": "‍", "M": "\U0001F3FD", "W": "\U0001F44B", "R": "\U0001F1E6", "CR": "\r", "LF": "\n",
 	"/": "/", " ": " ", "eacute": "é", "=": "=", "S": "̸", "<": "<", "cedilla": "̧", "dot": "̣",
+	// names used by the string-function reference (TextRef.tla)
+	"wave": "\U0001F44B", "tone": "\U0001F3FD", "zwj": "\u200d", "ri": "\U0001F1E6", "TAB": "\t",
 }
 
 // multi-letter abstract names by code point (single-letter names stand for themselves,
